@@ -5,10 +5,15 @@ From the repo's CURRENT source it regenerates
   * lean/TinsModel/Gen/Layout.lean : where the compiler puts every member / bit-field of the header structs
     (a generated C++ probe compiled with -fno-access-control sets every value bit of every member in a zeroed
     struct and reports the memory bit that changed), which accessors are one-statement accessors of which member
-    with which byte-order conversion (recognised in the C++ source text), the parameter domain of every setter
-    (deduced by the C++ compiler in the probe) and the default-constructed images;
+    with which byte-order conversion (recognised in the C++ source text; accessors of a nested object such as
+    `capabilities().ess()` and whole-array copies from a pointer included), the parameter domain of every setter
+    (deduced by the C++ compiler in the probe), the default-constructed images — all of it per class (`byClass`) —
+    and the class blocks of Spec.rows (`segments`);
   * harness/c15_fields.cpp : the correspondence harness, one getter/setter pair per row of the hand-written
-    table lean/TinsModel/Fields/Spec.lean.
+    table lean/TinsModel/Fields/Spec.lean (PDU classes, variants of a class with another header shape, and the two
+    ICMP extension classes that are not PDUs);
+  * coverage statistics: every public (setter, getter) pair with a scalar parameter found in include/tins/**.h,
+    which of them are header fields (not stored in an option / tag) and which of those a Spec row covers.
 Files are written only when their content changes.  Anything the translator cannot recognise becomes a `custom`
 row (needs a hand-written model in Fields/Custom.lean); it never guesses.
 """
